@@ -301,19 +301,15 @@ func runC05(c *Ctx) {
 				okLit = got["Name"] == "name" && got["Kind"] == "kind" && got["Offset"] == "offset" && got["Shape"] == "shape"
 				return true
 			})
-			// order of the named reads: name, dims, (shape), kind, offset
-			order := []string{}
-			core.InspectShallow(loop.Body, func(n ast.Node) bool {
-				if as, ok := n.(*ast.AssignStmt); ok && as.Tok == token.DEFINE {
-					if id, ok := as.Lhs[0].(*ast.Ident); ok {
-						if _, isRead := vars[id.Name]; isRead {
-							order = append(order, id.Name)
-						}
-					}
+			// the variables bound to Name, Kind and Offset are defined by reads in wire order
+			posOf := func(n string) token.Pos {
+				if o := vars[n]; o != nil {
+					return o.Pos()
 				}
-				return true
-			})
-			c.Check("C05-R2", f.Key()+" tensor fields bound in wire order", c.Pos(loop), okLit && strings.Join(order, ",") == "name,dims,kind,offset", "reads bound as "+strings.Join(order, ",")+"; literal ok="+map[bool]string{true: "yes", false: "no"}[okLit])
+				return token.NoPos
+			}
+			okOrder := posOf("name") != token.NoPos && posOf("name") < posOf("kind") && posOf("kind") < posOf("offset")
+			c.Check("C05-R2", f.Key()+" tensor fields bound in wire order", c.Pos(loop), okLit && okOrder, "Name, Kind and Offset must be bound from the first string read, the u32 after the dimensions and the final u64, in that order")
 		}
 	}
 	if f := c.Fn("C05-R2", ggmlPkg, "WriteGGUF"); f != nil {
@@ -379,7 +375,7 @@ func runC05(c *Ctx) {
 			pads := core.CallsTo(info, rl.Stmt.Body, false, ggmlPkg+".ggufPadding")
 			sizes := core.CallsTo(info, rl.Stmt.Body, false, ggmlPkg+".Tensor.Size")
 			seeks := core.CallsTo(info, rl.Stmt.Body, false, "io.Seeker.Seek")
-			if len(pads) == 1 && len(sizes) == 1 && len(seeks) == 3 {
+			if len(pads) == 1 && len(sizes) >= 1 && len(seeks) == 3 {
 				lp, ls := g.Locate(pads[0]), g.Locate(sizes[0])
 				okR = g.Dominates(lp, ls) && lp != ls
 			}
